@@ -280,7 +280,7 @@ def decoder_kinds(spec: dict, enc, soft: bool) -> List[str]:
             continue  # table construction enumerates error patterns by weight; bounded so a weak code cannot stall a worker
         if kind == "ml" and enc.code_dimension > 12:
             continue
-        if spec["family"] == "reed_muller" and kind in ("syndrome", "rm_inverse") and enc.code_dimension > (8 if kind == "syndrome" else 12):
+        if spec["family"] == "reed_muller" and kind in ("syndrome", "rm_inverse") and enc.code_dimension > (8 if kind == "syndrome" else 16):
             continue  # ReedMullerCodeEncoder.inverse_encode / calculate_syndrome enumerate all 2^k codewords per call
         out.append(kind)
     return out
